@@ -351,9 +351,21 @@ def rule_ref(ctx: Ctx) -> RuleReport:
     # the loop over path components: '..' pops (only when something can be popped), '.'/'' skipped, everything else kept
     loops = [n for n in walk_own(f.node) if isinstance(n, ast.For)]
     if not loops:
-        raise AnalysisError("C14-REF: component loop of _normalize_relative_path not found")
-    body_txt = " ; ".join(norm(s) for s in loops[0].body)
-    pops = [n for n in ast.walk(loops[0]) if isinstance(n, ast.If) and any(isinstance(st, ast.Expr) and isinstance(st.value, ast.Call) and isinstance(st.value.func, ast.Attribute) and st.value.func.attr == "pop" for st in n.body)]
+        # the library form: posixpath.normpath(posixpath.join(base, target)). join() keeps a rooted target ('/ppt/media/x.png') rooted, and
+        # member names of a ZIP never start with '/': the leading slash has to go before the name is looked up
+        calls_ = {(dotted(c.func) or "").split(".")[-1] for c in ast.walk(f.node) if isinstance(c, ast.Call)}
+        if {"normpath", "join"} <= calls_:
+            rets = [r for r in walk_own(f.node) if isinstance(r, ast.Return) and r.value is not None]
+            strips = [c for c in ast.walk(f.node) if isinstance(c, ast.Call) and isinstance(c.func, ast.Attribute) and c.func.attr in ("lstrip", "removeprefix") and c.args and isinstance(c.args[0], ast.Constant) and c.args[0].value == "/"]
+            sliced = [i for i in walk_own(f.node) if isinstance(i, (ast.If, ast.While)) and "startswith('/')" in norm(i.test)]
+            if strips or sliced:
+                rep.ok({"_normalize_relative_path": "normpath(join(base, target)) with the leading slash of rooted targets removed"})
+            else:
+                rep.fail(Finding("C14-REF", PPTX, f.qual, "rooted target keeps its leading slash", "posixpath.join() returns a rooted target ('/ppt/media/image2.png') unchanged and nothing removes the leading slash: no member of the package is called that, the picture is silently missing and the later images are renumbered", line=rets[0].lineno if rets else f.node.lineno))
+        else:
+            raise AnalysisError("C14-REF: component loop of _normalize_relative_path not found")
+    body_txt = " ; ".join(norm(s) for s in loops[0].body) if loops else ""
+    pops = [] if not loops else [n for n in ast.walk(loops[0]) if isinstance(n, ast.If) and any(isinstance(st, ast.Expr) and isinstance(st.value, ast.Call) and isinstance(st.value.func, ast.Attribute) and st.value.func.attr == "pop" for st in n.body)]
     for p in pops:
         t = norm(p.test)
         # the stack that is popped: the guard must be "the stack is not empty", whatever the stack is called
@@ -362,7 +374,7 @@ def rule_ref(ctx: Ctx) -> RuleReport:
             rep.ok({"_normalize_relative_path": f"'..' pops only `if {t}`"})
         else:
             rep.fail(Finding("C14-REF", PPTX, f.qual, t, f"a '..' component is honoured only `if {t}`: targets that climb out of /ppt (../../media/x.png) resolve to the wrong part, so another image's bytes (or none) are returned", line=p.lineno))
-    if not pops:
+    if not pops and loops:
         rep.fail(Finding("C14-REF", PPTX, f.qual, body_txt[:120], "'..' components are no longer resolved", line=f.node.lineno))
     # OPC (ECMA-376 part 2, 8.3): a relationship target is relative to the directory of its source part, or -- with a leading slash -- to
     # the package root. Gluing a directory in front of the target is right for the plain relative form only.
